@@ -6,13 +6,14 @@
   by `delta` does not panic, arbitrary arithmetic:
   * `jacobian_entries` : the call succeeds; the trace of evaluation points is exactly
       `[point, x⁽¹⁾, …, x⁽ⁿ⁾]` with `x⁽ʲ⁺¹⁾ = evalPt point delta j`, i.e. (`evalPt_get`) `point`
-      with coordinate j replaced by `point[j] + delta`, every EARLIER coordinate i < j replaced by
-      `(point[i] + delta) - delta` (restore-after-perturb, as the code computes it — in floating
-      point this is not `point[i]` in general) and later coordinates untouched; and entry (i, j)
-      of the result is the quotient `((f x⁽ʲ⁺¹⁾)[i] - (f point)[i]) / delta` as computed.
+      with coordinate j replaced by `point[j] + delta` and EVERY other coordinate untouched (the
+      loop puts the saved coordinate back after the perturbation — repair D15; it used to compute
+      `(point[i] + delta) - delta`, which in floating point is not `point[i]` in general); and
+      entry (i, j) of the result is the quotient `((f x⁽ʲ⁺¹⁾)[i] - (f point)[i]) / delta` as
+      computed.
+  * `restore_exact`, `jacobian_restore_exact` : the working copy is always `point`, so every
+      evaluation point is exactly `point + δ e_j` (no algebraic law needed any more);
   Class (E):
-  * `restore_exact`, `jacobian_restore_exact` : in an additive group `(p + δ) - δ = p`, so every
-      evaluation point is exactly `point + δ e_j`;
   * `jacobian_affine` : over a linearly ordered field with `delta ≠ 0` the Jacobian of the affine
       map `x ↦ M x + c` is exactly `M` (for every shape m × n).
 -/
@@ -30,47 +31,34 @@ open Ohsl Ohsl.Mat Ohsl.Jac
 section States
 variable {E : Type} [Add E] [Sub E]
 
-/-- the loop's working copy of the point after `j` iterations: coordinate `j` is perturbed and
-    restored, in this order, by each iteration -/
-def stateAt (point : Array E) (delta : E) : Nat → Array E
-  | 0 => point
-  | j + 1 => (stateAt point delta j).modify j (fun p => (p + delta) - delta)
+/-- the loop's working copy of the point after `j` iterations: each iteration perturbs coordinate
+    `j` and then puts the SAVED coordinate back (repair D15), so the working copy is `point` itself
+    at every stage (`delta` and the iteration count are kept as arguments for the callers) -/
+def stateAt (point : Array E) (delta : E) (j : Nat) : Array E := point
 
 /-- the point at which `f` is evaluated in iteration `j` (`x⁽ʲ⁺¹⁾`) -/
 def evalPt (point : Array E) (delta : E) (j : Nat) : Array E :=
   (stateAt point delta j).modify j (fun p => p + delta)
 
 @[simp] theorem stateAt_size (point : Array E) (delta : E) (j : Nat) :
-    (stateAt point delta j).size = point.size := by
-  induction j with
-  | zero => rfl
-  | succ j ih => simp [stateAt, ih]
+    (stateAt point delta j).size = point.size := rfl
 
 @[simp] theorem evalPt_size (point : Array E) (delta : E) (j : Nat) :
     (evalPt point delta j).size = point.size := by simp [evalPt]
 
-/-- closed form of the working copy: coordinates `< j` hold `(p + δ) - δ`, the others `p` -/
+/-- closed form of the working copy: every coordinate holds the original `p` (exact restore) -/
 theorem stateAt_get (point : Array E) (delta : E) (j i : Nat) (h : i < (stateAt point delta j).size)
     (h' : i < point.size) :
-    (stateAt point delta j)[i] = if i < j then (point[i] + delta) - delta else point[i] := by
-  induction j with
-  | zero => simp [stateAt]
-  | succ j ih =>
-    have hi : i < (stateAt point delta j).size := by simpa using h'
-    simp only [stateAt, Array.getElem_modify, ih hi]
-    by_cases h1 : j = i
-    · subst h1; simp
-    · have e1 : (i < j + 1) = (i < j) := by apply propext; omega
-      simp [h1, e1]
+    (stateAt point delta j)[i] = point[i] := rfl
 
 /-- closed form of the evaluation points: `x⁽ʲ⁺¹⁾` is `point` with coordinate `j` replaced by
-    `point[j] + δ`, earlier coordinates by `(point[i] + δ) - δ`, later ones untouched -/
+    `point[j] + δ`, all other coordinates (earlier and later) untouched -/
 theorem evalPt_get (point : Array E) (delta : E) (j i : Nat) (h : i < (evalPt point delta j).size)
     (h' : i < point.size) :
     (evalPt point delta j)[i] =
-      if i < j then (point[i] + delta) - delta else if i = j then point[i] + delta else point[i] := by
+      if i = j then point[i] + delta else point[i] := by
   have hi : i < (stateAt point delta j).size := by simpa using h'
-  simp only [evalPt, Array.getElem_modify, stateAt_get point delta j i hi h']
+  simp only [evalPt, Array.getElem_modify, stateAt]
   by_cases h1 : j = i
   · subst h1; simp
   · have h2 : ¬ i = j := fun e => h1 e.symm
@@ -146,8 +134,7 @@ theorem jacobian_entries (f : Array E → Array E) (point : Array E) (delta : E)
       let xi ← aget x.2.1 i
       let state ← aset x.2.1 i (xi + delta)
       let fnew := f state
-      let xi' ← aget state i
-      let state' ← aset state i (xi' - delta)
+      let state' ← aset state i xi
       let diff ← Vec.sub fnew (f point)
       let col ← Vec.sdiv diff delta
       let jac ← Mat.setCol x.1 i col
@@ -157,22 +144,21 @@ theorem jacobian_entries (f : Array E → Array E) (point : Array E) (delta : E)
     (by
       rintro k ⟨jac, state, tr⟩ _ hk ⟨hs, ht, e, hI, hE⟩
       simp only at hs ht hI hE
-      subst hs ht
+      subst state ht
       have hk' : k < (stateAt point delta k).size := by simpa using hk
       -- the perturbed point is `evalPt k`, the restored one `stateAt (k+1)`
       have hev : (stateAt point delta k).setIfInBounds k ((stateAt point delta k)[k] + delta)
           = evalPt point delta k := by
         rw [evalPt, modify_eq_set _ _ _ hk']
       have hk2 : k < (evalPt point delta k).size := by simpa using hk
-      have hres : (evalPt point delta k).setIfInBounds k ((evalPt point delta k)[k] - delta)
+      have hres : (evalPt point delta k).setIfInBounds k (stateAt point delta k)[k]
           = stateAt point delta (k + 1) := by
-        rw [stateAt, modify_eq_set _ _ _ hk']
         apply Array.ext_getElem?
         intro i
         simp only [Array.getElem?_setIfInBounds, evalPt, Array.getElem?_modify, Array.getElem_modify,
-          Array.size_modify]
+          Array.size_modify, stateAt]
         by_cases e : k = i
-        · subst e; simp
+        · subst e; simp [hk]
         · simp [e]
       have hfn : (f (evalPt point delta k)).size = m := hf _ (by simp)
       have hf0 : (f point).size = m := hf point rfl
@@ -215,28 +201,22 @@ end S
 /-! ### exact arithmetic -/
 section Exact
 
-/-- in an additive group the restore step is exact: the working copy is always `point` … -/
-theorem restore_exact {G : Type} [AddGroup G] (point : Array G) (delta : G) (j : Nat) :
-    stateAt point delta j = point := by
-  induction j with
-  | zero => rfl
-  | succ j ih =>
-    rw [stateAt, ih]
-    apply Array.ext
-    · simp
-    · intro i h1 h2
-      simp only [Array.getElem_modify]
-      split <;> simp
+/-- the restore step is exact (the saved coordinate is put back; no algebraic law is needed any
+    more): the working copy is always `point` … -/
+theorem restore_exact {G : Type} [Add G] [Sub G] (point : Array G) (delta : G) (j : Nat) :
+    stateAt point delta j = point := rfl
 
 /-- … and the `j`-th perturbed point is exactly `point + δ e_j` -/
-theorem evalPt_exact {G : Type} [AddGroup G] (point : Array G) (delta : G) (j : Nat) :
+theorem evalPt_exact {G : Type} [Add G] [Sub G] (point : Array G) (delta : G) (j : Nat) :
     evalPt point delta j = point.modify j (fun p => p + delta) := by
   rw [evalPt, restore_exact]
 
-/-- **exact restore**: over a field (any `divM` that does not fail on `delta`) the Jacobian call
+/-- **exact restore**: for every element type (any `divM` that does not fail on `delta`; no field
+    law is needed any more, the saved coordinate is put back) the Jacobian call
     evaluates `f` at `point` and at `point + δ e_j`, `j = 0, …, n-1`, in this order, and entry
     `(i, j)` is the computed quotient of `(f (point + δ e_j))[i] - (f point)[i]` by `δ`. -/
-theorem jacobian_restore_exact {K : Type} [Field K] [DecidableEq K] [ScalarExt K]
+theorem jacobian_restore_exact {K : Type} [Add K] [Sub K] [Mul K] [Neg K] [Zero K] [One K] [BEq K]
+    [ScalarExt K]
     (f : Array K → Array K) (point : Array K) (delta : K) (m : Nat)
     (hf : ∀ x : Array K, x.size = point.size → (f x).size = m)
     (hdiv : ∀ a : K, ∃ q, divM a delta = .ok q) :
